@@ -409,6 +409,22 @@ func trieGapsAtDepth[K kad.Key[K], D any](t *trie.Trie[bitstr.Key, D], depth int
 		bstr := bitstr.Key(byte('0' + i))
 		if b := t.Branch(i); b == nil {
 			gaps = append(gaps, bstr)
+		} else if !insideTarget && depth+1 < target.BitLen() && b.IsLeaf() {
+			// Still on the path to target: the gaps must stay inside target.
+			rest := target[depth+1:]
+			if !b.HasKey() {
+				gaps = append(gaps, bstr+rest)
+			} else if k := *b.Key(); IsBitstrPrefix(k, target) {
+				// target is covered by k: no gap
+			} else if IsBitstrPrefix(target, k) {
+				siblingPrefixes := SiblingPrefixes(k)[len(target):]
+				sortBitstrKeysByOrder(siblingPrefixes, order)
+				for _, siblingPrefix := range siblingPrefixes {
+					gaps = append(gaps, siblingPrefix[depth:])
+				}
+			} else {
+				gaps = append(gaps, bstr+rest)
+			}
 		} else if b.IsLeaf() {
 			if b.HasKey() {
 				k := *b.Key()
